@@ -86,13 +86,21 @@ Proof. intros c ls s R. exact (iinv_all ii_phase_closed all_ii_phase_closed c ls
 Theorem c08_interleaved_no_task_dies : forall c ls s, irun (ientered c) ls = Some s -> ii_alive s = true /\ v_fuel (gs s) = false.
 Proof. intros c ls s R. split; [exact (iinv_all ii_alive all_ii_alive c ls s R)|].
   pose proof (iinv_all ii_fuel all_ii_fuel c ls s R) as I. unfold ii_fuel in I. now apply negb_true_iff in I. Qed.
-(* 'a reset always lands in IDLE with no facade, spa or descriptors' is FALSE once handlers may be suspended (finding K10): a user
-   reset suspended in its RUNNING_SPA_DISCONNECTED delivery while the pump's own reset completes and the pump discovers again
-   returns with the new descriptors in place - state IDLE, descriptors present, which no branch of the pump leaves *)
-Theorem c08_reset_lands_idle_empty_refuted_under_interleaving :
-  option_map (fun s => (v_reset_dirty s, stuck_idle s)) (irun (ientered true) w_k10) = Some (true, true).
-Proof. exact k10_witness. Qed.
-Example c08_interleaved_nonvacuous : Nat.ltb 5000 (List.length ireach) = true.
+(* a reset lands in IDLE with no facade, spa or descriptors also when handlers are suspended: whenever an async_reset returns, under
+   ANY schedule, no spa and no descriptors are in place (finding K10 - a user reset suspended in its RUNNING_SPA_DISCONNECTED delivery
+   while the pump's own reset completed and the pump discovered again used to return with the new descriptors in place, IDLE with
+   descriptors present, which no branch of the pump leaves - was repaired in /repo: async_reset clears the descriptors again when it
+   finishes; the extractor reads that line, reset_clears_descriptors_last) *)
+Theorem c08_interleaved_reset_lands_idle_empty : forall c ls s, irun (ientered c) ls = Some s -> v_reset_dirty s = false.
+Proof. intros c ls s R. pose proof (iinv_all ii_reset_clean all_ii_reset_clean c ls s R) as I. unfold ii_reset_clean in I. now apply negb_true_iff in I. Qed.
+(* ... and the manager is never left in IDLE with descriptors in place and nothing going on (the stuck state of K10); the schedule of
+   K10 itself now ends clean *)
+Theorem c08_interleaved_never_stuck_in_idle : forall c ls s, irun (ientered c) ls = Some s -> stuck_idle s = false.
+Proof. intros c ls s R. pose proof (iinv_all _ no_stuck_idle c ls s R) as I. now apply negb_true_iff in I. Qed.
+Theorem c08_k10_schedule_ends_clean :
+  option_map (fun s => (v_reset_dirty s, stuck_idle s, desc (gs s))) (irun (ientered true) w_k10) = Some (false, false, false).
+Proof. exact k10_schedule_now_clean. Qed.
+Example c08_interleaved_nonvacuous : Nat.ltb 2000 (List.length ireach) = true.
 Proof. exact ireach_size. Qed.
 
 Example c08_nonvacuous : existsb (fun s => sstate_eqb (st s) CONNECTED) reach = true /\
